@@ -21,6 +21,9 @@ ELEMS = {
     'vph': ('\\vphantom{q}', 'v'), 'fn': ('\\footnote{Wfnq}', 'v'),
     'par': ('\\par', 'pc'), 'minib': ('\\begin{minipage}{w}', 'p'), 'minie': ('\\end{minipage}', 'p'),
     'proofb': ('\\begin{proof}', 'p'),
+    # a displayed equation whose last row is closed by a row separator; its placeholders and operator words are taken
+    # out of the text between the words before judging
+    'eqn': ('\\begin{align}\na &= b \\\\\nc &= d \\\\\n\\end{align}', 'v'), 'eqn1': ('\\begin{equation}a = b.\\end{equation}', 'v'),
 }
 # a vanishing construct on a line of its own (indented): one alphabet symbol, so that runs of such lines are within the bound
 COMPOSITES = {'l-label': ['nli', 'label'], 'l-index': ['nli', 'index'], 'l-xxx': ['nli', 'xxx'], 'l-yyy': ['nl', 'yyy'], 'l-ltskip': ['nli', 'ltskip'],
@@ -212,8 +215,9 @@ class C05:
                 viol.append({'clause': 'both words survive in order', 'sig': 'C05:word-lost:' + self.tag(g),
                              'detail': {'source': src, 'plain': plain}})
                 break
-            between = plain[a + 4:b].replace('Proof.', '')
-            obs_par = bool(re.search(r'\n[ \t]*\n', between))
+            raw = plain[a + 4:b]
+            between = re.sub(r'[U-Z]-[U-Z]-[U-Z]\.?|equal', '', raw.replace('Proof.', ''))
+            obs_par = bool(re.search(r'\n[ \t]*\n', raw))       # a blank line in what the filter wrote
             if any(ELEMS[n][1] != 'w' for n in flat(g)):
                 nt = True
             if between.strip(WS):
